@@ -23,10 +23,10 @@ func propSpecs() map[string]*PropSpec {
 	}
 	tokStub := "parser.Scan summarised on token-slot sources from tables derived on this run from the real Scan (78 lexemes; one-token locality validated on all lexeme pairs); native replays use the real Scan"
 	var lib []RunSpec
-	for k := int64(0); k < 56; k++ {
+	for k := int64(0); k < 57; k++ {
 		lib = append(lib, rs("H_Lib", k, 2))
 	}
-	for k := int64(0); k < 27; k++ {
+	for k := int64(0); k < 30; k++ {
 		if k == 13 {
 			continue // bare go statements: not supported by the engine (threads only through verif.Par)
 		}
